@@ -42,6 +42,15 @@ Proof.
   destruct (from_key v Sb K) as [g|e|]; cbn [bindr]; try reflexivity.
 Qed.
 
+(* the key-acceptance predicate handed to the extra-field parser by the scan is PublicKey::from_slice acceptance *)
+Lemma valid_pk_b_iff k : valid_pk_b k = true <-> pk_from_slice k = Ok k.
+Proof.
+  unfold valid_pk_b. destruct (pk_from_slice k) as [k'|e|] eqn:H.
+  - apply pk_from_slice_id in H. subst k'. split; reflexivity.
+  - split; discriminate.
+  - split; discriminate.
+Qed.
+
 End AuditC07Basics.
 
 Section AuditC07Laws.
